@@ -72,6 +72,9 @@ UPVerdict ==
     LET same == SameValue(e.v1, e.v2) IN
     IF same # e.same THEN "harness-oracle-disagrees"
     ELSE IF e.panic THEN "uuid-panic"
+    \* both are promised to hold "exactly when" the values are equal, hence exactly together -
+    \* whatever one takes "equal components" to mean for +0/-0
+    ELSE IF e.kind = "triple" /\ e.teq \in {"true", "false"} /\ e.teq # B2S(e.ueq) THEN "triple-equal-disagrees-with-uuid"
     ELSE IF ~same /\ SameUpToZeroSign(e.v1, e.v2) THEN "open"
     ELSE IF e.ueq /\ ~same THEN "uuid-collision"
     ELSE IF ~e.ueq /\ same THEN "uuid-differs-for-equal-values"
